@@ -1115,6 +1115,18 @@ func genC19(w *bufio.Writer, r *rng, thorough bool) {
 			emit(w, "batchfail %s %d", prog, r.intn(n+k+1))
 		}
 	}
+	// long lists (several internal blocks) with one un-normalisable element at the ends / middle
+	for _, n := range []int{129, 200, 300} {
+		long := genProgram(r, n, false, false)
+		for _, pos := range []int{0, n / 2, n} {
+			emit(w, "batchfail %s %d", long, pos)
+		}
+	}
+	// mixed representations ending with a normalised element
+	for i := 0; i < 6; i++ {
+		emit(w, "batch %s;norm:%d", genProgram(r, 6+r.intn(10), false, false), r.intn(5))
+		emit(w, "batch g;dbl:0;add:0:1;c:%d", r.intn(256))
+	}
 	// every position of a short list
 	prog := genProgram(r, 9, false, false)
 	for pos := 0; pos <= 9; pos++ {
@@ -1539,6 +1551,11 @@ func genMp(w *bufio.Writer, r *rng, thorough bool, id string) {
 func genC04(w *bufio.Writer, r *rng, thorough bool) {
 	pts := []*big.Int{big.NewInt(0), big.NewInt(1), big.NewInt(254), big.NewInt(255), big.NewInt(256), big.NewInt(257),
 		sub(pow2(64), 1), pow2(64), add(pow2(64), 1), sub(rMod, 1), sub(rMod, 256), pow2(8 * 31)}
+	rinv := new(big.Int).ModInverse(two256, rMod)
+	for _, m := range []*big.Int{big.NewInt(7), big.NewInt(255), big.NewInt(256), sub(pow2(64), 1), pow2(64)} {
+		v := new(big.Int).Mul(m, rinv) // Montgomery representation = m
+		pts = append(pts, v.Mod(v, rMod))
+	}
 	reps := 1
 	if thorough {
 		reps = 6
@@ -1916,6 +1933,23 @@ func genC18(w *bufio.Writer, r *rng, thorough bool) {
 	}
 	polys := []string{fmt.Sprintf("r%d", r.intn(1000)), "u0", "u255", fmt.Sprintf("u%d", r.intn(256)), "k" + r.frHex(), "m", "z", "x" + strings.Join(mono, ",")}
 	zs := []*big.Int{big.NewInt(256), big.NewInt(257), sub(rMod, 1), r.frBig(), r.frBig(), pow2(200)}
+	// points whose MONTGOMERY representation is structured (single limb, boundary limbs)
+	rinv := new(big.Int).ModInverse(two256, rMod)
+	for _, m := range []*big.Int{big.NewInt(7), pow2(63), sub(pow2(64), 1), pow2(64), pow2(128), add(pow2(192), 5)} {
+		v := new(big.Int).Mul(m, rinv)
+		zs = append(zs, v.Mod(v, rMod))
+	}
+	grid := limbGrid()
+	for i := 0; i < 6; i++ {
+		zs = append(zs, grid[r.intn(len(grid))])
+	}
+	var outside []*big.Int
+	for _, z := range zs {
+		if z.Cmp(big.NewInt(255)) > 0 {
+			outside = append(outside, z)
+		}
+	}
+	zs = outside
 	for _, p := range polys {
 		for _, z := range zs {
 			emit(w, "bary.eval %s %s", p, be32(z))
@@ -1984,5 +2018,45 @@ func genMixed(w *bufio.Writer, r *rng, thorough bool, concurrent bool) {
 			emit(w, "bary.eval %s %s", polyDesc(r), r.frHex())
 		}
 	}
+	// many openings sharing one evaluation point with opening 0 (more than any CPU count)
+	emit(w, "mp %s %s", labelHex("c"), openingSet(r, 40, 0, 0))
+	// verification histories around the last domain point: z = 255, then others, alternating
+	ha := makeHonestAt(r, []uint8{255, 3})
+	hb := makeHonestAt(r, []uint8{3, 7})
+	hc := makeHonestAt(r, []uint8{0, 255, 128})
+	for i := 0; i < 3; i++ {
+		for _, h := range []honest{ha, hb, hc} {
+			emit(w, "%s", h.line(h.label, h.cs, h.zs, h.ys, h.d, h.ls, h.rs, h.a))
+		}
+	}
 	_ = concurrent
+}
+
+func makeHonestAt(r *rng, zsIn []uint8) honest {
+	ic := config()
+	var h honest
+	h.label = r.bytes(3)
+	var Cs []*banderwagon.Element
+	var fs [][]fr.Element
+	for _, z := range zsIn {
+		f := parsePoly(polyDesc(r))
+		c := ic.Commit(f)
+		Cs = append(Cs, &c)
+		fs = append(fs, f)
+		h.cs = append(h.cs, ptHex(&c))
+		h.zs = append(h.zs, fmt.Sprint(z))
+		h.ys = append(h.ys, frHex(&f[z]))
+	}
+	tr := common.NewTranscript(string(h.label))
+	p, err := multiproof.CreateMultiProof(tr, ic, Cs, fs, zsIn)
+	if err != nil {
+		panic(err)
+	}
+	h.d = ptHex(&p.D)
+	for i := range p.IPA.L {
+		h.ls = append(h.ls, ptHex(&p.IPA.L[i]))
+		h.rs = append(h.rs, ptHex(&p.IPA.R[i]))
+	}
+	h.a = frHex(&p.IPA.A_scalar)
+	return h
 }
